@@ -392,7 +392,7 @@ type violation struct {
 }
 
 var raceHdr = regexp.MustCompile(`(?m)^WARNING: DATA RACE`)
-var frameRe = regexp.MustCompile(`(?m)^  ([^\s(]+)\(.*\)\n\s+(\S+\.go):(\d+)`)
+var frameRe = regexp.MustCompile(`(?m)^  (\S+?)\(\)\n\s+(\S+\.go):(\d+)`)
 
 type raceReport struct {
 	Text   string
